@@ -61,6 +61,6 @@ def hs (c : Case) : Verdict :=
       | some m => .diff tag m
       | none => .ok tag
 
-def families : List (String × (Case → Verdict)) := [("c12_hs", hs)]
+def families : List (String × (Case → Verdict)) := [("c12_hs", hs), ("c12_quic", hs)]
 
 end Drv.C12
